@@ -263,6 +263,25 @@ class _Run:
                                 f"torn last frame (ENOSPC after {len(whole) - frames[-1].start} bytes) "
                                 f"was returned as {short(got)}")
 
+        # ---- S2 again, across frames: the reference implementation reads the whole stream frame by frame,
+        #      each parse_length_prefixed consuming exactly one frame (whoever wrote it)
+        rs = io.BytesIO(whole[: good[-1].end] if good else b"")
+        for k, fr in enumerate(good):
+            if fr.relayed:
+                pbc = ref.pb_class(fr.cls)
+            else:
+                pbc = ref.pb_class(fr.cls)
+            try:
+                pbm = gproto.parse_length_prefixed(pbc, rs)
+            except Exception as e:  # noqa: BLE001
+                raise Violation("C10.S2", "reference-cannot-read-stream", f"frame {k}: {type(e).__name__}: {e}")
+            if pbm is None or rs.tell() != fr.end:
+                raise Violation("C10.S2", "reference-consumes-other-span",
+                                f"frame {k} occupies [{fr.start},{fr.end}) but the reference reader stopped at {rs.tell()}")
+            if pbm.SerializeToString(deterministic=True) != pbc.FromString(fr.payload).SerializeToString(deterministic=True):
+                raise Violation("C10.S2", "reference-reads-differently", f"frame {k} (sequential read)")
+        stats["probe:reference-read-whole-stream"] += 1
+
         # ---- S3: cut points
         total = good[-1].end if good else 0
         if total <= 96:
